@@ -57,6 +57,10 @@ def main():
         shape = rnd.choice([(4,), (5,), (6,), (2, 3), (3, 2)])
         raw = [cd.gen_array(rnd, shape, rnd.choice(["DInt", "DFloat", "DFloat"]), False, rnd.choice([0.0, 0.2, 0.4])) for _ in range(3)]
         fz = [cd.gen_array(rnd, shape, "DFloat", True, rnd.choice([0.0, 0.2, 0.4])) for _ in range(3)]
+        # the same cells with one more axis of length 1 (a NetCDF variable with a single time step): consumers reject the mix of
+        # shapes, and must leave these results as they are while doing so
+        raw.append(numpy.ma.array(numpy.ma.getdata(raw[0]).reshape((1,) + tuple(shape)).copy(), mask=numpy.ma.getmaskarray(raw[0]).reshape((1,) + tuple(shape)).copy()))
+        fz.append(numpy.ma.array(numpy.ma.getdata(fz[0]).reshape(tuple(shape) + (1,)).copy(), mask=numpy.ma.getmaskarray(fz[0]).reshape(tuple(shape) + (1,)).copy()))
         pool = [(a, False) for a in raw] + [(a, True) for a in fz]
         snaps = [snap(a) for a, _ in pool]
         trace = []
